@@ -218,7 +218,10 @@ func (s *Stats) Discrepancy(key, what string, c any) string {
 			_ = os.MkdirAll(dir, 0o755)
 			doc := map[string]any{"property": s.Property, "test": s.Test, "key": key, "what": what, "case": json.RawMessage(b)}
 			out, _ := json.MarshalIndent(doc, "", " ")
-			_ = os.WriteFile(filepath.Join(dir, sanitize(key)+"."+s.Test+".json"), out, 0o644)
+			// (an existing file is kept: the committed reproduction stays the same across runs, seeds and shards)
+			if path := filepath.Join(dir, sanitize(key)+"."+s.Test+".json"); !fileExists(path) {
+				_ = os.WriteFile(path, out, 0o644)
+			}
 		}
 		h.Count++
 		return ""
@@ -232,6 +235,11 @@ func (s *Stats) Discrepancy(key, what string, c any) string {
 	_ = os.WriteFile(path, out, 0o644)
 	s.violations[key] = Violation{Key: key, Replay: path, What: what}
 	return fmt.Sprintf("VERIF-VIOLATION property=%s key=%s replay=%s :: %s", s.Property, key, path, what)
+}
+
+func fileExists(p string) bool {
+	_, err := os.Stat(p)
+	return err == nil
 }
 
 func sanitize(k string) string {
